@@ -145,7 +145,7 @@ def run(chk):
         feats = stack_feats(c)
         desc = {"features": feats, "cell": c["cell"], "metals": [[m["dir"], m["flip"], m["offset"], [f"{e['tt']}{e['w']}" for e in m["entries"]]] for m in c["stack"]["metals"]]}
         oc = q.get("outcome")
-        if oc in ("panic", "abort", "timeout"):
+        if oc in ("panic", "abort", "timeout", "not-run"):
             chk.violation(f"compile-{oc}:{feats}", "RawExporter", desc, {"msg": q.get("msg"), "loc": q.get("loc")})
             continue
         if oc == "err":
